@@ -428,8 +428,8 @@ def replay(case, verbose=False):
         d1, d2, before, later = run_twice(_sweep_session(), case["libcall"])
         if verbose:
             print(case["libcall"], d1, d2, before != (later or [None])[0])
-        return d2 is not None and (d2 != d1 or later[0] != before
-                                   or later[1] != before)
+        return later is not None and (d2 != d1 or later[0] != before
+                                      or later[1] != before)
     CONFIG[0] = case.get("config", "home")
     write_modules(CONFIG[0])
     random_sequence()     # before any session under test exists
@@ -455,7 +455,7 @@ def replay(case, verbose=False):
 # ---- failing library calls leave nothing behind --------------------------------
 _SW = {}
 NOT_SOURCE = {"[1, itself]", "<*a = 1, _proto_ = itself*>",
-              "<*_proto_ = cyclic*>", "10^400"}
+              "<*_proto_ = cyclic*>", "10^400", "<<[1], <<2>>>>"}
 PROBE = ("[1 + 1, sum([1, 2]), string(<<2, 1>>), length('ab'), "
          "type(stdout), do undefined_name_q catch all 'u' end]")
 
@@ -542,8 +542,8 @@ def explore_library_failures(chunk):
             d1, d2, before, later = run_twice(sw, text)
             agg.count("steps")
             agg.cls(("libcall", fname, d1[0] if d1 else "ok"))
-            if d2 is None:
-                continue
+            if later is None:
+                continue          # the call succeeded
             bad = None
             if d2 != d1:
                 bad = ("repeat-differs", d1, d2)
